@@ -214,7 +214,7 @@ def run(prop, tier):
         "verdicts_expected_accept": accept, "verdicts_contested": contested,
         "programs_declined_with_diagnostics": sum(1 for r in recs if r["outcome"] == "diags"),
         "known_findings_hit": sorted({k for k, _ in known_hits}), "known_finding_observations": len(known_hits),
-        "binding_selftest": neg, "exhaustive": True,
+        "binding_selftest": neg, "exhaustive": False, "exhaustively_enumerated_depth": max(dp for _, dp in fams),
         "rule": "TLC breadth-first over TypeGen per family up to MaxDepth (every reachable program) + seeded random walks to greater depth; probes are "
                 "type-directed (Probe.tla) plus a fixed atom pool; a case is one (program, value, mode) triple",
     }
